@@ -14,6 +14,6 @@ for m in sorted(glob.glob(os.path.join(ROOT, "seeded", "*", "meta.json"))):
             k = "proof" if "'kind': 'proof'" in b else "translator refusal" if "translator-refusal" in b else "correspondence" if "'kind': 'correspondence'" in b else None
             if k and k not in kinds: kinds.append(k)
         how = "%s: %s" % (first["tier"], ", ".join(kinds) or "broken obligation")
-    rows.append("| %s | %s | %s | %s |" % (d["id"], (d.get("summary") or "").replace("|", "/")[:150], (d.get("needs_to_manifest") or "").replace("|", "/")[:140], how))
+    rows.append("| %s | %s | %s | %s |" % (d["id"], (d.get("summary") or "").replace("|", "/")[:120], (d.get("needs_to_manifest") or "").replace("|", "/")[:110], how))
 print("| id | change | needs | caught by |\n|---|---|---|---|")
 print("\n".join(rows))
